@@ -268,11 +268,6 @@ def signature(case, verdict, failed):
     asp = case["aspect"]
     tags = set(verdict.get("tags", []))
     why = verdict.get("why", "")
-    if failed == ["spec"]:
-        if asp == "size" and why.startswith("size:assert") and "sizeAssertOnlyEmpty" in tags:
-            return "size:assert-on-empty-fiber"
-        if asp == "scan" and why.startswith("scan:C-over-U") and "scanOnlyCoverU" in tags:
-            return "scan:C-over-U-payload-handle"
     return f"{asp}:{'/'.join(sorted(failed))}:{why[:40]}"
 
 
